@@ -23,7 +23,7 @@ var c15Selectors = []string{".a", ".b", "#c", "div[x=\"1\"]", ".banner > a", "#c
 
 func c15HostsFor(lines []string) []string {
 	hosts := []string{"example.org", "sub.example.org", "x.sub.example.org", "example.com", "google.co.uk", "www.google.com", "notexample.org",
-		"a.com", "b.a.com", "c.b.a.com", "zzz.net", "x.google.y.notgoogle.com", "example.kobe.jp", "google.github.io", "example.local", "me.github.io", "localhost", "sub.localhost", "org"}
+		"a.com", "b.a.com", "c.b.a.com", "zzz.net", "x.google.y.notgoogle.com", "example.kobe.jp", "google.github.io", "example.local", "me.github.io", "localhost", "sub.localhost", "org", "example.org.", "sub..example.org", ".a.com"}
 	return hosts
 }
 
